@@ -9,7 +9,7 @@ import itertools
 
 from ..source import AnalysisError, norm
 from ..cfg import class_named, function_named
-from ..interp import Interp, Obj, Raised, Env
+from ..interp import class_members, Interp, Obj, Raised, Env
 from .. import core
 from .C08 import ISA, ident, const, binop, base_stubs, select_ctor, _show
 
@@ -27,6 +27,12 @@ def registered(orig):
 
 
 _METHODS = {}
+_CTX = {}
+
+
+def interp_for(stubs, file=None, **kw):
+    """an interpreter that resolves methods and class constants of the planner classes and the module-level names of `file`"""
+    return Interp.for_file(_CTX['src'], file or PJ, ISA, stubs, also=('mindsdb_sql/planner/plan_join.py', 'mindsdb_sql/planner/query_planner.py'), **kw)
 
 
 def run(ctx):
@@ -43,9 +49,8 @@ def run(ctx):
     tree = ctx.src.tree(PJ)
     cls = class_named(tree, 'PlanJoinTablesQuery')
     ctx.need(cls is not None, 'PlanJoinTablesQuery not found')
-    fn = {m.name: m for m in cls.body if isinstance(m, ast.FunctionDef)}
-    _METHODS.clear()
-    _METHODS['PlanJoinTablesQuery'] = fn
+    fn = class_members(cls)
+    _CTX.update(tree=tree, src=ctx.src)
     for need in ('process_predictor', 'join_condition_to_columns_map', 'get_table_for_column', 'add_plan_step'):
         ctx.need(need in fn, f'PlanJoinTablesQuery.{need} not found')
     pp = fn['process_predictor']
@@ -144,7 +149,7 @@ def run(ctx):
         model.attrs['join_condition'] = on
         stubs = base_stubs()
         stubs['self.get_table_for_column'] = lambda it, c: c.attrs.get('_table') if isinstance(c, Obj) and c.kind == 'Identifier' else None
-        it = Interp(ISA, stubs, methods=_METHODS)
+        it = interp_for(stubs)
         try:
             got = it.call_function(cm, [Obj('PlanJoinTablesQuery'), model], {}, Env())
         except Raised as r:
@@ -167,13 +172,13 @@ def run(ctx):
     t_m, t_t = Obj('TableInfo', name='m'), Obj('TableInfo', name='t')
     idx = {('m',): t_m, ('t',): t_t, ('proj', 'model'): t_m, ('model',): t_m}
     for parts, want in ((['m', 'a'], t_m), (['M', 'a'], t_m), (['t', 'x'], t_t), (['PROJ', 'Model', 'a'], t_m), (['a'], None), (['zz', 'a'], None)):
-        it = Interp(ISA, base_stubs(), methods=_METHODS)
+        it = interp_for(base_stubs())
         got = it.call_function(gt, [Obj('PlanJoinTablesQuery', tables_idx=idx), Obj('Identifier', parts=parts, alias=None)], {}, Env())
         rows += 1
         ctx.ob('C14.attribution', '.'.join(parts), got is want,
                f'column {".".join(parts)} is attributed to {got!r}, expected {want!r}: a condition is attributed to a table / model by the alias in front of the '
                f'column, in any letter case', file=PJ, line=gt.lineno)
-    got = Interp(ISA, base_stubs(), methods=_METHODS).call_function(gt, [Obj('PlanJoinTablesQuery', tables_idx=idx), const(1)], {}, Env())
+    got = interp_for(base_stubs()).call_function(gt, [Obj('PlanJoinTablesQuery', tables_idx=idx), const(1)], {}, Env())
     ctx.ob('C14.attribution', 'constant', got is None, 'a constant belongs to no table', file=PJ, line=gt.lineno)
     # ---- conjunct-only / registered comparison: C08's tables ---------------------------------------------------------------------------------------
     from . import C08
@@ -211,7 +216,7 @@ def _run_pp(ctx, pp, item, query_in, fn, stack=None):
     stubs['self.join_condition_to_columns_map'] = lambda it, i: {'mapped': True}
     self_ = Obj('PlanJoinTablesQuery', step_stack=[Obj('FetchDataframeStep', result='R-older'), data_step] if stack is None else stack,
                 planner=Obj('QueryPlanner', default_namespace='mindsdb', predictor_namespace='mindsdb'))
-    it = Interp(ISA, stubs, methods=_METHODS)
+    it = interp_for(stubs)
     try:
         it.call_function(pp, [self_, item, query_in], {}, Env())
     except Raised as r:
